@@ -1069,6 +1069,28 @@ func Forall(vars []*Term, body *Term) *Term {
 	return t
 }
 
+// ForallPat: universally quantified formula with an instantiation pattern (trigger).
+func ForallPat(vars []*Term, body *Term, pat *Term) *Term {
+	if body.IsTrue() {
+		return True
+	}
+	if !body.bound {
+		return body
+	}
+	args := append([]*Term{body}, vars...)
+	args = append(args, pat)
+	t := intern(&Term{Op: "forall", Name: "pat", Sort: SBool, Args: args})
+	t.bound = containsOtherBound(body, vars)
+	return t
+}
+
+func quantVars(t *Term) []*Term {
+	if t.Name == "pat" {
+		return t.Args[1 : len(t.Args)-1]
+	}
+	return t.Args[1:]
+}
+
 func Exists(vars []*Term, body *Term) *Term {
 	if !body.bound {
 		return body
@@ -1098,7 +1120,7 @@ func containsOtherBound(t *Term, vars []*Term) bool {
 			// inner quantifier: t.bound already says whether it has free bound vars
 			// (relative to itself); check them against ours
 			inner := map[int]bool{}
-			for _, v := range t.Args[1:] {
+			for _, v := range quantVars(t) {
 				inner[v.id] = true
 			}
 			return freeBoundNotIn(t.Args[0], vs, inner)
@@ -1129,7 +1151,7 @@ func freeBoundNotIn(t *Term, a, b map[int]bool) bool {
 			for k := range b {
 				b2[k] = true
 			}
-			for _, v := range t.Args[1:] {
+			for _, v := range quantVars(t) {
 				b2[v.id] = true
 			}
 			return freeBoundNotIn(t.Args[0], a, b2)
@@ -1231,6 +1253,9 @@ func Rebuild(t *Term, args []*Term) *Term {
 	case "<", "<=", ">", ">=":
 		return IntCmp(t.Op, args[0], args[1])
 	case "forall":
+		if t.Name == "pat" {
+			return ForallPat(args[1:len(args)-1], args[0], args[len(args)-1])
+		}
 		return Forall(args[1:], args[0])
 	case "exists":
 		return Exists(args[1:], args[0])
@@ -1317,7 +1342,7 @@ func (t *Term) SMT() string {
 			return
 		case "forall", "exists":
 			sb.WriteString("(" + t.Op + " (")
-			for _, v := range t.Args[1:] {
+			for _, v := range quantVars(t) {
 				sb.WriteString("(" + smtName(v.Name) + " " + string(v.Sort) + ")")
 			}
 			sb.WriteString(") ")
@@ -1377,11 +1402,15 @@ func (s *Script) Ref(t *Term) string {
 	case "forall", "exists":
 		var sb strings.Builder
 		sb.WriteString("(" + t.Op + " (")
-		for _, v := range t.Args[1:] {
+		for _, v := range quantVars(t) {
 			sb.WriteString("(" + smtName(v.Name) + " " + string(v.Sort) + ")")
 		}
 		sb.WriteString(") ")
-		sb.WriteString(s.Ref(t.Args[0]))
+		if t.Name == "pat" {
+			sb.WriteString("(! " + s.Ref(t.Args[0]) + " :pattern (" + s.Ref(t.Args[len(t.Args)-1]) + "))")
+		} else {
+			sb.WriteString(s.Ref(t.Args[0]))
+		}
 		sb.WriteString(")")
 		txt = sb.String()
 	default:
